@@ -77,6 +77,8 @@ func randomCfg(v int, e *vh.Env) cfg {
 	cf := cfg{variant: v, ratio: ratios[e.Rnd.Intn(len(ratios))]}
 	if e.Rnd.Intn(8) == 0 {
 		cf.ratio = bigRatios[e.Rnd.Intn(len(bigRatios))]
+	} else if e.Rnd.Intn(8) == 0 {
+		cf.noRatio, cf.viaOptions, cf.ratio = true, true, defaultRWRatio // no WithRwRatio: built after many differently configured maps
 	}
 	if v != 0 {
 		ps := []uint64{1, 2, 2, 73, 0, 5}
@@ -475,4 +477,45 @@ func emitStress(e *vh.Env, cf cfg, iters int) {
 		Replay:     fmt.Sprintf("stress:%d,%d,%d|%s|", cf.variant, cf.ratio, cf.prime, strings.Join(ks, ";")),
 		Desc:       desc,
 	})
+}
+
+// ---------------------------------------------------------------- constructor histories
+
+// ctorHistory builds several maps ONE AFTER ANOTHER with different option sets - explicit ratio, then defaults, then
+// another explicit ratio, then WithPrime only, ... through all three constructors - and runs each against the model of
+// ITS OWN options (no WithRwRatio => DefaultRWRatio = 10, computed in Coq by `options`).  On every map: rwRatio readers
+// fill the key, the next reader must park, a writer parks behind it, ... (script "fill"), and the writer-behind-readers
+// history.  A default-built map that admits an 11th reader (or parks the 4th) took its ratio from somewhere else.
+func ctorHistory(e *vh.Env, v int, class string) int {
+	n := 0
+	pre := 0
+	explicit := []int{30, 3, 64, 2, 12, 7}
+	steps := e.Scale(8, 24)
+	for i := 0; i < steps; i++ {
+		cf := cfg{variant: v, viaOptions: true, preRatio: pre}
+		if i%2 == 1 || e.Rnd.Intn(5) == 0 {
+			cf.noRatio, cf.ratio = true, defaultRWRatio // built on the defaults, AFTER a differently configured map
+		} else {
+			cf.ratio = explicit[e.Rnd.Intn(len(explicit))]
+		}
+		if i%4 >= 2 {
+			cf.variant = e.Rnd.Intn(3) // the other constructors share RangeOption
+		}
+		if cf.variant != 0 && e.Rnd.Intn(2) == 0 {
+			cf.prime = []uint64{1, 2, 7}[e.Rnd.Intn(3)] // WithPrime only / with a ratio
+		}
+		pool := keyPool(cf.variant, cf.prime)
+		cf.keys = []interface{}{pool[0], pool[1]}
+		for _, si := range []int{5, 1, 10} { // fill; readers behind a waiting writer; writer admitted by the last of rwRatio readers
+			r := newRunner(cf)
+			runScript(r, scripts[si], cf.ratio)
+			r.finish()
+			emitSched(e, r, class)
+			n++
+		}
+		if !cf.noRatio {
+			pre = cf.ratio
+		}
+	}
+	return n
 }
